@@ -818,8 +818,8 @@ def remap_by_types(
 
         def visit_UnaryOp(self, node: ast.UnaryOp) -> Any:
             t_node = self.generic_visit(node)
-            self._found_types[node] = self._found_types[node.operand]
-            self._found_types[t_node] = self._found_types[node.operand]
+            self._found_types[node] = self.lookup_type(node.operand)
+            self._found_types[t_node] = self.lookup_type(node.operand)
             return t_node
 
         def visit_BinOp(self, node: ast.BinOp) -> Any:
